@@ -637,7 +637,10 @@ def run_ops(ops):
     for i, line in enumerate(ops):
         model_in.append(line)
         if dead:
-            outs.append('skip=numerics' if outs and outs[-1] == 'skip=numerics' else 'dead'); continue
+            if outs and outs[-1] == 'skip=numerics':
+                outs.append('skip=numerics'); model_in[-1] = 'skip'
+            else: outs.append('dead')
+            continue
         before = U.snapshot() if not line.startswith(('pkg', 'new')) else None
         HFAIL[0] = 0
         try:
@@ -650,8 +653,9 @@ def run_ops(ops):
                 if is_numerics(e):
                     # the enthalpy solve gave up: the case ends here without a verdict on this line
                     U.tags.add('eb:numerics-skip')
+                    # from here on the real state is not the model's: the driver is not asked about these lines
                     outs.extend(['skip=numerics'] * (len(ops) - i))
-                    model_in.extend(ops[i + 1:])
+                    model_in[-1:] = ['skip'] * (len(ops) - i)
                     break
         if exc is None and (' vle' in line or ' cp' in line) and line.startswith('mix'):
             dead = True
@@ -659,14 +663,14 @@ def run_ops(ops):
             # the enthalpy solve failed and was handled inside the call (re-phase and re-mix, or worse): the material result
             # is still judged by the oracle below, but the model does not follow that path
             U.tags.add('eb:H-setter-failed-inside-call')
-            o = 'skip=numerics'; dead = True
+            o = 'skip=numerics'; dead = True; model_in[-1] = 'skip'
         outs.append(o)
         t0 = line.split(' ')
         if exc is None and (t0[0] in DEFAULTS or t0[-1] == 'eb') and t0[0] in ('mix', 'sum', 'sep', 'iadd', 'add', 'isub'):
             # `self.H = H` may relabel a single-phase result g <-> l (temperature solve failed in the current phase):
             # thermodynamic numerics, handed to the model as a parameter of this line
             j = len(U.streams) - 1 if t0[0] in ('sum', 'add') else int(t0[1])
-            if not U.is_multi(U.streams[j]) and U.streams[j].phase in 'gl':
+            if model_in[-1] != 'skip' and not U.is_multi(U.streams[j]) and U.streams[j].phase in 'gl':
                 model_in[-1] = line + f' ph:{j}:{U.streams[j].phase}'
         if before is not None:
             if exc is None and not moved:
@@ -1014,9 +1018,11 @@ def gen_random(rng, nstreams, nops):
         for l in new:
             if l == 'END': return Case(ops, {})
             ops.append(l)
+            HFAIL[0] = 0
             try: U.apply(l)
             except ErrorInOp: raise
             except Exception: return Case(ops, {})
+            if HFAIL[0]: return Case(ops, {})       # the enthalpy solve failed inside the call: the case ends here
         if not safe(U):
             for _ in new: ops.pop()
             break
